@@ -82,6 +82,8 @@ struct lit_info {
   _Bool is_integer; /* [+-]? digits */
   _Bool vsat;       /* V stopped accumulating (more than 30 digits of magnitude) */
   u128 V;           /* value of the integer-part digits */
+  _Bool prefixes_below_2_64; /* every prefix of the integer digits denotes a value below 2^64 (== V < 2^64: lemma h_lemma_prefixes) */
+  _Bool prefixes_upto_2_63;  /* ... at most 2^63 (== V <= 2^63) */
   _Bool nonzero;    /* some mantissa digit is not 0, i.e. v != 0 */
   _Bool pow10;      /* the leading non-zero digit is 1 and every other mantissa digit is 0: |v| is a power of ten */
   long p;           /* 10^p <= |v| < 10^(p+1) when nonzero */
@@ -95,9 +97,14 @@ static void spec_scan(const char *s, size_t n, struct lit_info *o) {
   size_t a0 = (n > 0 && (s[0] == '+' || s[0] == '-')) ? 1 : 0;
   size_t a1 = 0, b0 = 0, b1 = 0, c0 = 0, c1 = 0, lead = PN_N + 8;
   unsigned ph = 1, nint = 0, nfrac = 0, nexp = 0, lead_digit = 0;
-  _Bool eneg = 0, rest = 0, vsat = 0, has_dot = 0, has_e = 0, f4 = 0;
+  _Bool eneg = 0, rest = 0, vsat = 0, has_dot = 0, has_e = 0, f4 = 0, pre64 = 1, pre63 = 1;
   _Bool first_ok = a0 < n && ((s[a0] >= '0' && s[a0] <= '9') || s[a0] == '.');
-  for (unsigned k = 0; k <= PN_N; k++) { g_P[k] = 0; g_E[k] = 0; }
+  /* running values: P of the integer digits read so far, E of the exponent digits read so far; stored once per position
+   * (unconditional stores keep the formula small) */
+  u128 P = 0;
+  long E = 0;
+  g_P[0] = 0;
+  g_E[0] = 0;
   for (unsigned k = 0; k < PN_N; k++) {
     if (k >= a0 && k < n && ph != 5) {
       char ch = s[k];
@@ -107,8 +114,10 @@ static void spec_scan(const char *s, size_t n, struct lit_info *o) {
       if (ph == 1) {
         if (dig) {
           nint++; mant = 1;
-          if (g_P[k] == 1844674407370955161ull && d >= 6) f4 = 1;
-          if (g_P[k] >> 100) { vsat = 1; g_P[k + 1] = g_P[k]; } else g_P[k + 1] = g_P[k] * 10 + d;
+          if (P == 1844674407370955161ull && d >= 6) f4 = 1;
+          if (P >> 100) vsat = 1; else P = P * 10 + d;
+          if (P >> 64) pre64 = 0;
+          if (P > ((u128)1 << 63)) pre63 = 0;
         } else {
           a1 = k;
           if (dot) { has_dot = 1; b0 = k + 1; ph = 2; }
@@ -119,10 +128,10 @@ static void spec_scan(const char *s, size_t n, struct lit_info *o) {
         else { b1 = k; if (ee) { has_e = 1; ph = 3; } else { c0 = c1 = k; ph = 5; } }
       } else if (ph == 3) {
         if (sg) { eneg = ch == '-'; c0 = k + 1; ph = 4; }
-        else if (dig) { c0 = k; nexp++; g_E[k + 1] = d; ph = 4; }
+        else if (dig) { c0 = k; nexp++; E = d; ph = 4; }
         else { c0 = c1 = k; ph = 5; }
       } else { /* ph == 4 */
-        if (dig) { nexp++; g_E[k + 1] = g_E[k] > 1000000000 ? g_E[k] : g_E[k] * 10 + d; }
+        if (dig) { nexp++; if (E <= 1000000000) E = E * 10 + d; }
         else { c1 = k; ph = 5; }
       }
       if (mant) {
@@ -130,6 +139,8 @@ static void spec_scan(const char *s, size_t n, struct lit_info *o) {
         else if (d) rest = 1;
       }
     }
+    g_P[k + 1] = P;
+    g_E[k + 1] = E;
   }
   /* the string ended inside a group */
   if (ph == 1) { a1 = n; b0 = b1 = n; c0 = c1 = n; }
@@ -141,13 +152,15 @@ static void spec_scan(const char *s, size_t n, struct lit_info *o) {
   /* index of the leading non-zero digit among the mantissa digits; 10^pm <= mantissa digits as a number with the point after nint digits */
   long lead_idx = !nonzero ? 0 : lead < a1 ? (long)(lead - a0) : (long)nint + (long)(lead - b0);
   g_pm = (long)nint - lead_idx - 1;
-  long E = g_E[c1];
+  E = g_E[c1];
   o->lenient = first_ok && c1 == n;
   o->strict = o->lenient && nint + nfrac >= 1 && (!has_e || nexp >= 1);
   o->neg = neg;
   o->is_integer = first_ok && a1 == n && nint >= 1;
   o->vsat = vsat;
   o->V = g_P[a1];
+  o->prefixes_below_2_64 = pre64;
+  o->prefixes_upto_2_63 = pre63;
   o->nonzero = nonzero;
   o->pow10 = nonzero && lead_digit == 1 && !rest;
   o->p = g_pm + (eneg ? -E : E);
@@ -158,7 +171,12 @@ static void spec_scan(const char *s, size_t n, struct lit_info *o) {
 /* the property's range 1e-300 <= |v| <= 1e300 */
 static _Bool lit_above(const struct lit_info *o) { return o->nonzero && (o->p > 300 || (o->p == 300 && !o->pow10)); }
 static _Bool lit_below(const struct lit_info *o) { return !o->nonzero || o->p < -300; }
+/* an integer literal of [-2^63, 2^64).  Stated on the prefixes of the digit string: a digit string denotes a value below a
+ * bound exactly when each of its prefixes does (appending a digit never decreases the value; mechanised: h_lemma_prefixes) */
 static _Bool lit_int_fits(const struct lit_info *o) {
+  return o->is_integer && (o->neg ? o->prefixes_upto_2_63 : o->prefixes_below_2_64);
+}
+static _Bool lit_int_fits_by_value(const struct lit_info *o) {
   return o->is_integer && !o->vsat && (o->neg ? o->V <= ((u128)1 << 63) : o->V < ((u128)1 << 64));
 }
 static long spec_ndigits(uint64_t m) { /* decimal digits of m > 0 */
